@@ -217,7 +217,7 @@ func C17(r *Run) {
 	}
 	wg.Wait()
 	finishEvalFamily(r, "C17", st, sessions, []string{"RequiredModel = Skeleton", "OnlyMarkers", "Idempotent", "AgreesWithBkl"},
-		"model: all 2^8 placements of $required on an 8-position tree (below a non-directive key starting with a dollar sign, map values, nested map, list entries, map inside a list, two levels below a list entry, below a list nested in a list) x 7 upper layers (some satisfying), each run through the real bklr (output, idempotence) and bkl (agreement); driver: random trees with $required at random map values and list entries to depth 3-4, 1-3 layers in mixed formats; TLC judges the decoded real output against the declarative Skeleton")
+		"model: all 2^8 placements of $required on an 8-position tree (below a non-directive key starting with a dollar sign, map values, nested map, list entries, map inside a list, two levels below a list entry, below a list nested in a list) x 9 upper layers (some satisfying), each run through the real bklr (output, idempotence) and bkl (agreement); driver: random trees with $required at random map values and list entries to depth 3-4, 1-3 layers in mixed formats; TLC judges the decoded real output against the declarative Skeleton")
 }
 
 // modelToolCases runs MC_Tools for a family and hands every printed case to f.
